@@ -161,15 +161,24 @@ func main() {
 			codes := []int{0, 1000, 1005, 2999, 3000, 4999, 65535}
 			for _, c := range codes {
 				for n := 0; n <= 130; n++ {
-					for variant := 0; variant < 2; variant++ {
+					for variant := 0; variant < 14; variant++ {
 						c, n, variant := c, n, variant
 						t.Do(func() string { return fmt.Sprintf("NewCloseFrameBody code=%d reasonlen=%d variant=%d", c, n, variant) }, func() *explore.Fail {
 							var reason string
 							if variant == 0 {
 								reason = strings.Repeat("r", n)
-							} else {
-								// multibyte characters so the crop can fall inside one
+							} else if variant == 1 {
 								reason = strings.Repeat("€", n/3) + strings.Repeat("x", n%3)
+							} else {
+								// multibyte characters of 2, 3 and 4 bytes after 0..3 ASCII bytes, so that
+								// the 123-byte crop falls at every position inside a character
+								ch := []string{"é", "€", "😀"}[(variant-2)%3]
+								pad := (variant - 2) / 3
+								if n < pad {
+									return nil
+								}
+								reason = strings.Repeat("p", pad) + strings.Repeat(ch, (n-pad)/len(ch))
+								reason += strings.Repeat("x", n-len(reason))
 							}
 							body := ws.NewCloseFrameBody(ws.StatusCode(c), reason)
 							if len(body) > 125 {
